@@ -1,7 +1,7 @@
 (* Props/C18.v — API isolation: reads cannot disturb sync and see only committed blocks.
    Only statements, each closed by [exact]; proofs live in Lemmas/. *)
 From Model Require Import Examples Sync SitesSpec.
-From Lemmas Require Import SyncLemmas RestartLemmas SitesLemmas.
+From Lemmas Require Import SyncLemmas RestartLemmas SitesC18.
 From Gen Require Import Consts Sites.
 From Coq Require Import String.
 Open Scope list_scope.
